@@ -200,6 +200,47 @@ def opVersionSelect (j : Json) : Except String Json := do
       | .invalidVersion => ("invalidVersion", "")
     pure (Json.mkObj [("norm", norm), ("refused", k), ("v", v)])
 
+def bundledOfJson (bj : Json) : Except String Bundled := do
+  pure { defs := ← strList bj "defs", modules := ← strList bj "modules", controllers := ← strList bj "controllers" }
+
+/-- `getinfo`: the model's `ReplayParser.get_info` (`ReplayModel.getInfo`) on a real file. The block
+cipher is supplied as a table (as in `container.read`), inflate is the identity on what the harness
+already inflated (`stream`), json is the harness's (`version`: the game's version field or null),
+definitions come from the sets loaded earlier under the id `<game>/<directory>`. -/
+def opGetInfo (st : State) (j : Json) : Except String Json := do
+  let ext ← j.getObjValAs? String "ext"
+  let file ← getHex j "file"
+  let tbl ← (← j.getObjValAs? (Array Json) "dtable").toList.mapM fun e => do
+    let a ← e.getArr?
+    if h : a.size = 2 then
+      match fromHex (← a[0].getStr?), fromHex (← a[1].getStr?) with
+      | some c, some p => pure (c, p)
+      | _, _ => throw "bad hex in dtable"
+    else throw "bad dtable entry"
+  let D : Bytes → Bytes := fun c => match tbl.find? (·.1 == c) with | some (_, p) => p | none => []
+  let stream ← match j.getObjVal? "stream" with
+    | .ok sj => if sj.isNull then pure none else do pure (some (← getHex j "stream"))
+    | .error _ => pure none
+  let version : Option String := (j.getObjValAs? String "version").toOption
+  let bj ← j.getObjVal? "bundled"
+  let bw ← bundledOfJson (← bj.getObjVal? "wows")
+  let bt ← bundledOfJson (← bj.getObjVal? "wot")
+  let bp ← bundledOfJson (← bj.getObjVal? "wowp")
+  let strict ← j.getObjValAs? Bool "strict"
+  let gname : GameId → String := fun g => match g with | .wows => "wows" | .wot => "wot" | .wowp => "wowp"
+  let env : Env := {
+    D := D, inflate := fun _ => stream, jsonOk := fun _ => true,
+    versionOf := fun _ _ => version,
+    bundled := fun g => match g with | .wows => bw | .wot => bt | .wowp => bp,
+    defsOf := fun g name => (st.defs.get? (gname g ++ "/" ++ name)).getD ⟨[]⟩,
+    regOf := fun _ _ => {}, masks := st.masks }
+  match getInfo env strict ext file with
+  | .raises => pure (Json.mkObj [("raises", true)])
+  | .returns _ hidden error =>
+    pure (Json.mkObj [("returns", Json.mkObj [("hidden", hidden.isSome),
+      ("error", match error with | some e => (e : Json) | none => Json.null),
+      ("failed", match hidden with | some r => (r.failed.length : Json) | none => Json.null)])])
+
 def opSigBind (j : Json) : Except String Json := do
   let ps ← (← j.getObjValAs? (Array Json) "sig").toList.mapM fun e => do
     let a ← e.getArr?
@@ -425,6 +466,7 @@ def dispatch (st : State) (op : String) (j : Json) : Except String (State × Jso
   | "codec.write" => pureOp st (opCodecWrite st j)
   | "codec.writeArgs" => pureOp st (opCodecWriteArgs j)
   | "nested.encode" => pureOp st (opNestedEncode st j)
+  | "getinfo" => pureOp st (opGetInfo st j)
   | "bits.req" => pureOp st (opBitsReq j)
   | "bits.table" => pureOp st (opBitsTable j)
   | "bits.read" => pureOp st (opBitsRead j)
